@@ -812,6 +812,7 @@ func (c *Ctx) LSPDocumentStore(ob *core.Obligation) {
 			}
 		}
 	}
+	c.NotificationAlwaysStored(ob, upd)
 	// query handlers: look the document up under the request's own URI and answer under it.
 	// The lookup may sit in a helper that is given the key and returns the document found.
 	isDocLookup := func(in ssa.Instruction) *ssa.Lookup {
